@@ -34,12 +34,14 @@ N_POINTS = 6
 def plan(tier, seed):
     units = [{"uid": f"cpp{i}", "kind": "cpp", "i": i} for i in range(N[tier]["cpp"])]
     units += [{"uid": f"probe{i}", "kind": "probe", "i": i} for i in range(4 if tier == "quick" else 40)]
+    # value-only programs with angle-wrap idioms (asin(sin u) ...), CSE on vs off vs oracle
+    units += [{"uid": f"wrap{i}", "kind": "wrap", "i": i, "wraps": True} for i in range(24 if tier == "quick" else 600)]
     units += [{"uid": f"py{i}", "kind": "py", "i": i} for i in range(N[tier]["py"])]
     return units
 
 
 def unit_timeout(tier):
-    return 500 if tier == "quick" else 900
+    return 180 if tier == "quick" else 900
 
 
 def floors(tier):
@@ -304,6 +306,12 @@ def run_unit(unit, ctx):
         from .c01 import run_probe
 
         return run_probe(unit, ctx)
+    if unit["kind"] == "wrap":
+        from . import c01
+
+        out = c01.run_unit(unit, ctx)
+        out["counters"]["py_pairs_compared"] = out["counters"].get("cse_pairs_compared", 0)
+        return out
     if unit["kind"] == "py":
         _py(R, rng, ctx)
     else:
